@@ -128,7 +128,15 @@ var agentDefs = []agentDef{
 	{"simplebankedmemory", true, func() *agentInst {
 		a, reg := newInst("simplebankedmemory")
 		a.Storage = mem.NewStorage(1 * mem.MB)
-		comp := simplebankedmemory.MakeBuilder().WithRegistrar(reg).
+		// short pipeline: dispatch, one pipeline stage, post-pipeline buffer,
+		// response -- every stage is reachable within three ticks
+		spec := simplebankedmemory.DefaultSpec()
+		spec.NumBanks = 2
+		spec.BankPipelineDepth = 1
+		spec.StageLatency = 1
+		spec.PostPipelineBufSize = 1
+		spec.Capacity = 1 * mem.MB
+		comp := simplebankedmemory.MakeBuilder().WithRegistrar(reg).WithSpec(spec).
 			WithResources(simplebankedmemory.Resources{Storage: a.Storage}).
 			Build("BankedMem")
 		return a.finish(reg, comp, map[string]int{"Top": 4, "Control": 2}, []string{"Top", "Control"})
@@ -149,8 +157,10 @@ var agentDefs = []agentDef{
 	{"mmu", true, func() *agentInst {
 		a, reg := newInst("mmu")
 		a.PageTable = smallPageTable()
+		mspec := mmu.DefaultSpec()
+		mspec.Latency = 2
 		comp := mmu.MakeBuilder().WithRegistrar(reg).
-			WithSpec(mmu.DefaultSpec()).
+			WithSpec(mspec).
 			WithResources(mmu.Resources{PageTable: a.PageTable}).
 			Build("MMU")
 		return a.finish(reg, comp, map[string]int{"Top": 4, "Control": 2}, []string{"Top", "Control"})
@@ -217,7 +227,14 @@ var agentDefs = []agentDef{
 	{"dram", true, func() *agentInst {
 		a, reg := newInst("dram")
 		a.Storage = mem.NewStorage(1 * mem.MB)
-		comp := dram.MakeBuilder().WithRegistrar(reg).
+		// DDR3-like device with short timing so that activate / read / data
+		// return fit into a handful of ticks
+		spec := dram.DefaultSpec()
+		spec.TCL, spec.TCWL, spec.TRCD, spec.TRP, spec.TRAS = 2, 1, 2, 2, 4
+		spec.TRCDRD, spec.TRCDWR, spec.TRTP, spec.TWR = 2, 2, 1, 2
+		spec.TCCDL, spec.TCCDS, spec.TRRDL, spec.TRRDS, spec.TWTRL, spec.TWTRS = 1, 1, 1, 1, 1, 1
+		spec.TransactionQueueSize, spec.CommandQueueCapacity = 4, 2
+		comp := dram.MakeBuilder().WithRegistrar(reg).WithSpec(spec).
 			WithResources(dram.Resources{Storage: a.Storage}).Build("DRAM")
 		return a.finish(reg, comp, map[string]int{"Top": 4, "Control": 2}, []string{"Top", "Control"})
 	}},
